@@ -84,7 +84,6 @@ Fixpoint fixed_width (t : ty) : option nat :=
   | TIPAddr => Some 4%nat
   | TPcccAscii => Some 2%nat
   | TArrFixed n e => match fixed_width e with Some w => Some (n * w)%nat | None => None end
-  | TStruct SPlain ms => sum_opt (map (fun m => fixed_width (snd m)) ms)
   | TStructTag _ _ _ size => Some size
   | _ => None
   end.
@@ -152,7 +151,7 @@ Fixpoint wf_ty (t : ty) : bool :=
       && keys_nodup (filter (fun k => negb (unnamed k)) (map fst ms))
   | TFixedStr size _ lw _ => (0 <? size)%nat && (0 <? lw)%nat
   | TStructTag ms bits priv size =>
-      forallb (fun m => wf_ty (snd m)) ms
+      forallb (fun m => wf_ty (snd m) && negb (greedy (snd m))) ms
       && layout_ok 0 (stag_layout ms) size
       && keys_nodup (map (fun m => fst (fst m)) ms ++ map (fun b => Some (fst b)) bits)
       && forallb (fun m => negb (key_in (fst (fst m)) priv) || always_decodes (snd m)) ms
@@ -343,12 +342,51 @@ Definition doc_str_dom (lsg : bool) (lw : nat) (e : tenc) (s : text) : bool :=
 Definition doc_named_str_dom (n : text) (s : text) : bool :=
   match ty_of_name n with
   | Some (TStr a b c) => doc_str_dom a b c s
-  | Some TStringN => in_urange 2 (zlen s) && encodable Utf8 s
+  | Some TStringN => in_urange 2 (zlen s) && forallb (single_byte Utf8) s
   | _ => false
   end.
 Definition is_int_type (t : ty) : option (bool * nat) := match t with TInt sg w => Some (sg, w) | _ => None end.
 
-Fixpoint doc_dom (t : ty) (v : val) : bool :=
+(* types DOCUMENTED to consume the whole remaining buffer: n_bytes(-1), Array(None, T) (and a
+   structure ending in one) *)
+Fixpoint doc_greedy (t : ty) : bool :=
+  match t with
+  | TNBytes n => n =? -1
+  | TArrAll _ => true
+  | TStruct _ ms => lastb (fun m => doc_greedy (snd m)) ms
+  | _ => false
+  end.
+
+(* type terms the constructors are documented to build (sizes, nesting of buffer-consuming types,
+   template layouts), independently of any value *)
+Fixpoint doc_wf (t : ty) : bool :=
+  match t with
+  | TInt _ w | TBits w => (0 <? w)%nat
+  | TStr _ lw _ => (0 <? lw)%nat
+  | TNBytes n => -1 <=? n
+  | TArrFixed _ e => doc_wf e && negb (greedy e)
+  | TArrPrefix _ lt e =>
+      match is_int_type lt with Some (_, w) => (0 <? w)%nat | None => false end && doc_wf e && negb (greedy e)
+  | TArrAll e => doc_wf e && negb (greedy e) && (is_bits e || consumes e)
+  | TStruct _ ms =>
+      forallb (fun m => doc_wf (snd m)) ms && initb (fun m => negb (greedy (snd m))) ms
+      && keys_nodup (filter (fun k => negb (unnamed k)) (map fst ms))
+  | TFixedStr size _ lw cap => (cap <=? size)%nat && (0 <? lw)%nat
+  | TStructTag ms bits priv size =>
+      (* a template: members at increasing non-overlapping offsets inside [size], hidden members of
+         plain integer / bit-string kind, BOOL members in hidden hosts or padding, distinct names *)
+      forallb (fun m => doc_wf (snd m) && negb (greedy (snd m))) ms
+      && layout_ok 0 (stag_layout ms) size
+      && keys_nodup (map (fun m => fst (fst m)) ms ++ map (fun b => Some (fst b)) bits)
+      && forallb (fun m => negb (key_in (fst (fst m)) priv) || always_decodes (snd m)) ms
+      && forallb (fun b => negb (mem_text (fst b) priv)
+                           && (fst (snd b) <? size)%nat && (snd (snd b) <? 8)%nat
+                           && negb (existsb (in_extent (fst (snd b))) (stag_visible_extents ms priv))) bits
+      && bitpos_nodup (map snd bits)
+  | _ => true
+  end.
+
+Fixpoint doc_val (t : ty) (v : val) : bool :=
   match t with
   | TBool => is_vbool v
   | TInt sg w => (0 <? w)%nat && match v with VInt z => int_in_range sg w z | _ => false end
@@ -362,7 +400,7 @@ Fixpoint doc_dom (t : ty) (v : val) : bool :=
                  | _ => false
                  end
   | TStr lsg lw e => match v with VStr s => doc_str_dom lsg lw e s | _ => false end
-  | TStringN => match v with VStr s => in_urange 2 (zlen s) && encodable Utf8 s | _ => false end
+  | TStringN => match v with VStr s => in_urange 2 (zlen s) && forallb (single_byte Utf8) s | _ => false end
   | TStringI =>
       match v with
       | VTuple [VStr s; VType n; VStr lang; VInt cs] =>
@@ -377,7 +415,7 @@ Fixpoint doc_dom (t : ty) (v : val) : bool :=
       | _ => false
       end
   | TNBytes n => match v with
-                 | VBytes b => bytes_ok b && ((n =? -1) || ((0 <=? n) && (zlen b =? n)))
+                 | VBytes b => bytes_ok b && (if n =? -1 then negb (zlen b =? 0) else (0 <=? n) && (zlen b =? n))
                  | _ => false
                  end
   | TBits w => (0 <? w)%nat && match v with VList l => (zlen l =? 8 * Z.of_nat w) && forallb is_vbool l | _ => false end
@@ -386,37 +424,38 @@ Fixpoint doc_dom (t : ty) (v : val) : bool :=
       | VList l =>
           match e with
           | TBits w => (0 <? w)%nat && (Z.of_nat n * (8 * Z.of_nat w) <=? zlen l) && forallb is_vbool l
-          | _ => (Z.of_nat n <=? zlen l) && forallb (doc_dom e) (firstn n l)
+          | _ => negb (greedy e) && (Z.of_nat n <=? zlen l) && forallb (doc_val e) (firstn n l)
           end
       | _ => false
       end
   | TArrPrefix _ lt e =>
       match is_int_type lt, v with
-      | Some (sg, w), VList l => (0 <? w)%nat && int_in_range sg w (zlen l) && forallb (doc_dom e) l
+      | Some (sg, w), VList l => negb (greedy e) && (0 <? w)%nat && int_in_range sg w (zlen l) && forallb (doc_val e) l
       | _, _ => false
       end
   | TArrAll e =>
       match v with
       | VList l => match e with
                    | TBits w => (0 <? w)%nat && (zlen l mod (8 * Z.of_nat w) =? 0) && forallb is_vbool l
-                   | _ => forallb (doc_dom e) l
+                   | _ => negb (greedy e) && consumes e && forallb (doc_val e) l
                    end
       | _ => false
       end
   | TStruct k ms =>
       let plain := fun v' =>
         match v' with
-        | VDict d => forallb (fun m => match dict_get d (fst m) with Ok x => doc_dom (snd m) x | Err _ => false end) ms
-        | VList l => forallb2 (fun m x => doc_dom (snd m) x) ms l
+        | VDict d => forallb (fun m => match dict_get d (fst m) with Ok x => doc_val (snd m) x | Err _ => false end) ms
+        | VList l => forallb2 (fun m x => doc_val (snd m) x) ms l
         | _ => false
         end in
+      initb (fun m => negb (greedy (snd m))) ms &&
       match k with
       | SPlain => plain v
       | _ => match v with
              | VDict _ => match identity_pre v with
                           | Ok (VDict d') =>
                               forallb (fun m => unnamed (fst m)
-                                                || match dict_get d' (fst m) with Ok x => doc_dom (snd m) x | Err _ => false end) ms
+                                                || match dict_get d' (fst m) with Ok x => doc_val (snd m) x | Err _ => false end) ms
                           | _ => false
                           end
              | _ => false
@@ -431,7 +470,7 @@ Fixpoint doc_dom (t : ty) (v : val) : bool :=
       && match v with
          | VDict d =>
              forallb (fun m => key_in (fst (fst m)) priv
-                               || match dict_get d (fst (fst m)) with Ok x => doc_dom (snd m) x | Err _ => false end) ms
+                               || match dict_get d (fst (fst m)) with Ok x => doc_val (snd m) x | Err _ => false end) ms
              && forallb (fun b => match dict_get d (Some (fst b)) with Ok x => is_vbool x | Err _ => false end) bits
          | _ => false
          end
@@ -439,3 +478,5 @@ Fixpoint doc_dom (t : ty) (v : val) : bool :=
   | TPcccAscii => match v with VStr s => (length s =? 2)%nat && forallb (single_byte Latin1) s | _ => false end
   | TPcccString => match v with VStr s => (length s <=? 82)%nat && forallb (single_byte Latin1) s | _ => false end
   end.
+
+Definition doc_dom (t : ty) (v : val) : bool := doc_wf t && doc_val t v.
